@@ -76,6 +76,7 @@ import Sds.Proofs.Glue
 import Sds.Proofs.Glue2
 import Sds.Proofs.Glue5
 import Sds.Proofs.SafeApi
+import Sds.Proofs.GenEqBv
 
 namespace Sds.C08
 open Sds Outcome IterProofs
@@ -690,5 +691,28 @@ example :
   decide +kernel
 example : (WM.ofValues [3, 1, 3, 0]).Ok [3, 1, 3, 0] (widthOf [3, 1, 3, 0]) :=
   WM.ofValues_ok_full _ (by decide) (by decide)
+
+/-! **The word accessors of the two `Transformation`s as translated from the source on this run**
+(`Generated/FnsBv.lean`): `Identity::{bit, word, word_unchecked, count_ones}` and `Complement::{bit, word, word_unchecked,
+count_ones}` — in particular the `index >= last_index` test that decides whether the complemented word is masked, and
+which of the two reads is the checked one.  The code as it is NOW is `wordT` / `wordSafeT`, the functions whose reads the
+no-out-of-bounds theorems above follow; unconditional. -/
+theorem transformation_accessors_as_translated_from_source (m : Mode) (b : BitVector) (i : Nat) :
+    Generated.gen_Identity_word_unchecked m b i = wordT .ident b.data i ∧
+    Generated.gen_Complement_word_unchecked m b i = wordT .compl b.data i ∧
+    Generated.gen_Identity_word m b i = wordSafeT .ident b.data i ∧
+    Generated.gen_Complement_word m b i = wordSafeT .compl b.data i ∧
+    Generated.gen_Identity_bit m b i = b.get i ∧
+    Generated.gen_Complement_bit m b i = (do let x ← b.get i; return !x) ∧
+    Generated.gen_Identity_count_ones m b = ok b.countOnes ∧
+    Generated.gen_Complement_count_ones m b = ok b.countZeros :=
+  ⟨GenEq.identity_word_unchecked_eq m b i, GenEq.complement_word_unchecked_eq' m b i, GenEq.identity_word_eq m b i,
+   GenEq.complement_word_eq' m b i, GenEq.identity_bit_eq m b i, GenEq.complement_bit_eq m b i,
+   GenEq.identity_count_ones_eq m b, GenEq.complement_count_ones_eq m b⟩
+
+/-- the translated safe `Complement::word` one word past the end panics on the index and never reads unchecked
+(the seeded change `>=` → `==` turns this into an out-of-bounds read) -/
+example : Generated.gen_Complement_word .wrapping (BitVector.ofRaw (RawVec.ofBits [true, false, true])) 2
+    = fault (.panic .index) := by decide +kernel
 
 end Sds.C08
